@@ -243,8 +243,7 @@ func callValidate(v reflect.Value) error {
 	return nil
 }
 
-// fieldShape names how a plain field of a struct is reached, given how the
-// struct itself is held.
+// ptrShape: the field is a pointer to a plain value (not to a struct).
 func ptrShape(t reflect.Type) bool {
 	return t.Kind() == reflect.Ptr && t.Elem().Kind() != reflect.Struct
 }
